@@ -155,8 +155,9 @@ def compare_one(ctx, info, where, impl, T, mol_rep, rep):
         ctx.count('pipe_model_est_' + kind)
         if E.EST_ERR[kind] != ic:
             return bad('outcome', ic, rep['esterr'])
-        if kind == 'missing' and rep['esterr']['groups'] != impl['esterr']['groups']:
-            return bad('missing groups (in mapping order)', impl['esterr']['groups'], rep['esterr']['groups'])
+        if kind == 'missing' and sorted(rep['esterr']['groups']) != sorted(impl['esterr']['groups']):
+            # as sets: the order in which GetDescriptors lists the names is no property of the code (C01 compares the order, for a given mapping)
+            return bad('missing groups', sorted(impl['esterr']['groups']), sorted(rep['esterr']['groups']))
         return True
     if ic != 'estimate':
         return bad('outcome', ic, 'estimate')
@@ -215,15 +216,18 @@ class PipeTie(object):
         self.cases = collections.OrderedDict()      # name -> [info, Ts, [(graph, where, impl)]]
         self.seen = set()
         self.memo = {}
+        self.variants = {}
         self.t_impl = 0.0
 
     def temps(self, name):
         ent = self.cases.get(name)
         return ent[1] if ent else None
 
-    def open(self, name, lib):
+    def open(self, name, lib, variant=None):
         if name not in self.cases:
             self.cases[name] = [info_of(name, lib), temperatures(self.ctx.rng, self.n_temps), []]
+            if variant:
+                self.variants[name] = variant
         return self.cases[name]
 
     def full(self, name):
@@ -245,7 +249,10 @@ class PipeTie(object):
             ctx.count('pipe_skipped_over_%d_atoms' % self.max_atoms)
             return impl
         self.seen.add((name, x))
-        lst.append((g, {'scheme': name, 'smiles': x, 'natoms': len(g['atoms'])}, impl))
+        where = {'scheme': name, 'smiles': x, 'natoms': len(g['atoms']), 'Ts': list(Ts)}
+        if name in self.variants:
+            where['variant'] = self.variants[name]
+        lst.append((g, where, impl))
         return impl
 
     def impl(self, name, lib, x):
@@ -294,9 +301,11 @@ def _val(o, T, p, fi=None):
     return v if fi is None else v[fi]
 
 
-def mixture_oracle(ctx, name, info, parts, outs, mix, Ts, separated=True):
+def mixture_oracle(ctx, name, info, parts, outs, mix, Ts, separated=True, variant=None):
     """PIPE_mixture_additive on the real code: `outs` = pipeline outcomes of the parts, `mix` = of 'A.B…' (same temperatures)."""
     inp = {'scheme': name, 'parts': parts, 'pipeline': 'mixture', 'Ts': list(Ts)}
+    if variant:
+        inp['variant'] = variant
     cls = [outcome_class(o) for o in outs]
     mc = outcome_class(mix)
     ctx.count('pipe_mixture_%s' % mc)
@@ -425,13 +434,15 @@ def same_outcome(ctx, info, inp, a, b, Ts, what):
     return good
 
 
-def sum_oracle(ctx, name, info, smi, out, Ts):
+def sum_oracle(ctx, name, info, smi, out, Ts, variant=None):
     """C01 ∘ C02 on the real code: the estimate the pipeline returns is the count-weighted sum over exactly the descriptors
     `GetDescriptors` returned — one term per descriptor, H/RT, Cp/R, S/R = Σ n·x_d(T) (first failing descriptor's failure
     otherwise), validity range = intersection of the descriptors' ranges."""
     if 'ok' not in out:
         return True
     inp = {'scheme': name, 'smiles': smi, 'pipeline': 'sum', 'Ts': list(Ts)}
+    if variant:
+        inp['variant'] = variant
     counts = out['counts']
     good = True
     if out['n'] != len(counts):
@@ -517,6 +528,11 @@ def respell_mapping(rng, info, mode):
                 out[nm] = 0 if j % 2 == 0 else 0.0
             f.padded = pad
             return out
+        if mode == 'zero-padded-unknown':
+            out = dict(items)
+            f.padded = [rng.choice([nm for nm in ('C(C)(H)2(Zz)', 'no such descriptor', 'Zz(H)4') if nm not in out])]
+            out[f.padded[0]] = rng.choice([0, 0.0])
+            return out
         out = {}
         for k, v in items:
             obj = info.keyobj.get(str(k))
@@ -577,6 +593,17 @@ def respell_oracle(ctx, name, info, smi, base, Ts, seed):
                         ctx.violation('pipeline with zero-count descriptors added: a getter fails although the added descriptors have the datum',
                                       dict(inp, T=T, getter=p), list(va), list(vb))
                         good = False
+    # … and a descriptor without data listed with the count 0 is still a descriptor without data (C01_missing_iff)
+    f = respell_mapping(random.Random(seed), info, 'zero-padded-unknown')
+    other = impl_pipeline(info, smi, Ts, mapping=f)
+    ctx.count('pipe_respell_zero_padded_unknown')
+    want = sorted(set(base['esterr']['groups'] if outcome_class(base) == 'GroupMissingDataError' else []) | set(f.padded))
+    if outcome_class(base) in ('estimate', 'GroupMissingDataError', 'ValueError', 'AssertionError') and \
+            (outcome_class(other) != 'GroupMissingDataError' or sorted(other['esterr']['groups']) != want):
+        ctx.violation('pipeline with a zero-count descriptor without data added: not the missing-data error naming it',
+                      {'scheme': name, 'smiles': smi, 'pipeline': 'respell', 'mode': 'zero-padded-unknown', 'seed': seed, 'Ts': list(Ts)},
+                      want, other.get('esterr', outcome_class(other)))
+        good = False
     return good
 
 
@@ -734,11 +761,122 @@ def load_keys_tie(ctx, rng, n):
             ctx.disagree('corr:pipe.load_keys', where, impl, rep)
 
 
+# ----------------------------------------------------------------------------- variant libraries (branches no shipped library reaches)
+def variant_library(name, lib, seed, memo):
+    """A library built through the real constructor from a shipped one, changed so that the two late failure stages of `Estimate`
+    become reachable (no shipped library reaches them): for a library with uncertainty data one descriptor that occurs in some of
+    the molecules tried is taken out of the basis (matrix row/column removed) — `ValueError` from `list.index`; and two descriptors
+    that occur in different molecules get disjoint validity ranges (`set_range` on copies of their correlations) — `AssertionError`
+    for a molecule or mixture containing both.  Deterministic in (library, seed, the molecules' descriptors)."""
+    import random, copy
+    import numpy as np
+    GroupLibrary = E._imports()[0]
+    rng = random.Random(seed)
+    info = info_of(name, lib)
+    occ = collections.Counter()
+    mols = [o for (n_, x), o in sorted(memo.items()) if n_ == name and 'ok' in o and '.' not in x]
+    for o in mols:
+        occ.update(set(o['counts']))
+    partial = sorted(k for k, v in occ.items() if 0 < v < len(mols) and k in info.corr)
+    rng.shuffle(partial)
+    basis = [str(b) for b in lib.uq_contents['descriptors']] if lib.uq_contents else []
+    cut = next((k for k in partial if k in basis), None)
+
+    def wide(k):
+        r = info.corr[k].get_range()
+        return r is not None and float(r[1]) - float(r[0]) > 10.0
+    ranged = [k for k in partial if k != cut and wide(k)]
+    if len(ranged) < 2 and cut is None:
+        return None
+    da, db = (ranged[0], ranged[1]) if len(ranged) >= 2 else (None, None)
+    contents = []
+    for k, ps in lib.contents.items():
+        nm = str(k)
+        if nm in (da, db) and SET in ps:
+            lo, hi = (float(v) for v in ps[SET].get_range())
+            c2 = copy.copy(ps[SET])
+            mid = (lo + hi) / 2.0
+            c2.set_range((lo, mid - 1.0) if nm == da else (mid + 1.0, hi))
+            ps = dict(ps)
+            ps[SET] = c2
+        contents.append((k, ps))
+    uq = lib.uq_contents
+    if uq and cut is not None:
+        i = basis.index(cut)
+        keep = [j for j in range(len(uq['descriptors'])) if j != i]
+        uq = {'RMSE': uq['RMSE'], 'descriptors': [uq['descriptors'][j] for j in keep],
+              'mat': np.asarray(uq['mat'])[np.ix_(keep, keep)], 'dof': uq['dof']}
+    lib2 = GroupLibrary(lib.scheme, contents, uq) if uq else GroupLibrary(lib.scheme, contents)
+    return lib2, {'cut': cut, 'disjoint': [da, db] if da is not None else []}
+
+
+def variant_outcome_oracle(ctx, name, info, smi, out, what, Ts, variant):
+    """which way `Estimate` must go on a variant library, from how the variant was built (C01_missing_iff, C20_out_of_basis,
+    C01_range_inter): a descriptor without data → GroupMissingDataError; else the descriptor cut from the uncertainty basis →
+    ValueError; else both descriptors with disjoint ranges → AssertionError; else an estimate"""
+    if 'counts' not in out:
+        return True
+    names = set(out['counts'])
+    if any(nm not in info.corr for nm in names):
+        want = 'GroupMissingDataError'
+    elif what['cut'] is not None and what['cut'] in names:
+        want = 'ValueError'
+    elif what['disjoint'] and set(what['disjoint']) <= names:
+        want = 'AssertionError'
+    else:
+        want = 'estimate'
+    ctx.count('pipe_variant_expected_' + want)
+    if outcome_class(out) != want:
+        ctx.violation('pipeline on a library variant: Estimate does not stop where its stages say (missing data, outside the uncertainty basis, '
+                      'empty common range)', {'scheme': name, 'smiles': smi, 'pipeline': 'variant-outcome', 'Ts': list(Ts), 'variant': variant},
+                      want, outcome_class(out))
+        return False
+    return True
+
+
+def replay_tie(ctx, d):
+    """re-run the correspondence on the input of a recorded disagreement `corr:pipe.estimate`; True = model and implementation agree"""
+    where = d['input']
+    lib, vwhat = _library_of(where)
+    tie = PipeTie(ctx)
+    info, Ts, _ = tie.open(where['scheme'], lib)
+    tie.cases[where['scheme']][1] = [float(t) for t in where.get('Ts') or [where['T']]]
+    n = len(ctx.disagreements)
+    tie.add(where['scheme'], lib, where['smiles'])
+    tie.run()
+    return len(ctx.disagreements) == n
+
+
+def _library_of(inp):
+    if inp.get('variant'):
+        # a variant library is a function of (base library, seed, the molecules the run had tried): rebuilt from the recorded molecules
+        v = inp['variant']
+        base = dict(S.load_schemes())[v['base']]
+        binfo = info_of(v['base'], base)
+        memo = {(v['base'], x): impl_pipeline(binfo, x, [298.15]) for x in v['molecules']}
+        return variant_library(v['base'], base, v['seed'], memo)
+    return dict(S.load_schemes())[inp['scheme']], None
+
+
 # ----------------------------------------------------------------------------- replay of a recorded pipeline violation
+def replay_record(ctx, rec):
+    """entry point for c03/c04 `replay`: a recorded violation of a pipeline oracle, or a recorded break of the pipeline tie;
+    None when the record is not about the pipeline"""
+    if rec.get('kind') == 'no-failing-input-found':
+        ds = [d for d in rec.get('disagreements', []) if d.get('what', '').startswith('corr:pipe.estimate')]
+        if not ds:
+            return None
+        return all([replay_tie(ctx, d) for d in ds])
+    inp = rec.get('input', rec)
+    if isinstance(inp, dict) and inp.get('pipeline'):
+        return replay(ctx, inp)
+    return None
+
+
 def replay(ctx, inp):
     """re-run the oracle that produced the recorded input (`inp['pipeline']` names it); True = holds"""
     before = len(ctx.violations)
-    lib = dict(S.load_schemes())[inp['scheme']]
+    lib, vwhat = _library_of(inp)
     info = info_of(inp['scheme'], lib)
     Ts = [float(t) for t in inp['Ts']]
     kind = inp['pipeline']
@@ -746,14 +884,16 @@ def replay(ctx, inp):
         parts = inp['parts']
         outs = [impl_pipeline(info, p, Ts) for p in parts]
         mix = impl_pipeline(info, '.'.join(parts), Ts)
-        mixture_oracle(ctx, inp['scheme'], info, parts, outs, mix, Ts)
+        mixture_oracle(ctx, inp['scheme'], info, parts, outs, mix, Ts, variant=inp.get('variant'))
     elif kind == 'equiv':
         equiv_oracle(ctx, inp['scheme'], info, inp['smiles'], impl_pipeline(info, inp['smiles'], Ts), inp['other'],
                      impl_pipeline(info, inp['other'], Ts), Ts)
     elif kind == 'respell':
         respell_oracle(ctx, inp['scheme'], info, inp['smiles'], impl_pipeline(info, inp['smiles'], Ts), Ts, inp['seed'])
     elif kind == 'sum':
-        sum_oracle(ctx, inp['scheme'], info, inp['smiles'], impl_pipeline(info, inp['smiles'], Ts), Ts)
+        sum_oracle(ctx, inp['scheme'], info, inp['smiles'], impl_pipeline(info, inp['smiles'], Ts), Ts, variant=inp.get('variant'))
+    elif kind == 'variant-outcome':
+        variant_outcome_oracle(ctx, inp['scheme'], info, inp['smiles'], impl_pipeline(info, inp['smiles'], Ts), vwhat, Ts, inp['variant'])
     elif kind == 'entry':
         entry_lookup_oracle(ctx, inp['scheme'], lib, inp['seed'])
     elif kind == 'library-spelling':
